@@ -117,6 +117,24 @@ CLAIMED.update({
             SCHED_NOTE, "DESIGN.md section 5 C10"),
 })
 
+CURSOR_NOTE = ("The harness owns the consumer (Next/Close/cancel timing), every store call (failures, silent corruption, latency, a ctx-honouring gate inside the MetaStore iteration) and the handle accounting; "
+               "where in the engine's internal pipeline a termination lands is left to the scheduler, GOMAXPROCS variation and repetition. Failures that fire after a query was terminated may be dropped (documented).")
+
+CLAIMED.update({
+    "C20": ("exploration",
+            "property-based testing (rapid): generated consumer scripts (Next xk, Close/cancel from this or another goroutine, stalls, batch-boundary stops) x store fault sequences x engine lifecycle, with a terminal-state oracle over the observed Next/Err/Close history",
+            "400 (quick) / 10 000 (thorough) scripts over datasets with several 64-row batches per block; checks termination, stickiness of false, Close idempotence/concurrency/nil, Err classification (clean / failures / cancelled), and that no row is handed out after the consumer's own Close/cancel completed.",
+            CURSOR_NOTE, "DESIGN.md section 5 C20"),
+    "C21": ("exploration",
+            "property-based testing (rapid): the same generated cursor scripts judged by resource accounting — per-handle open/close/use-after-close/concurrent-use counters in the store wrapper, iterator-open gauge, goroutine stack inspection, and a barrier-gated follow-up query that must reach MaxQueryConcurrency simultaneous reads",
+            "Every handle opened by every generated query is accounted for; leaked query-semaphore slots are made visible by the follow-up query. Includes silent-corruption faults (CRC failures) and multi-chunk filter regions.",
+            CURSOR_NOTE, "DESIGN.md section 5 C21"),
+    "C22": ("exploration",
+            "property-based testing (rapid): generated sets of concurrent queries with read latency and stalled consumers; invariant = gauge of in-progress OpenFile/Seek/Read on query handles <= MaxQueryConcurrency, and bounded completion of non-stalled queries (confirm-by-replay)",
+            "150 (quick) / 4 000 (thorough) schedules; most reach the limit exactly (more block jobs than slots). Exploration of schedules, not all of them.",
+            CURSOR_NOTE, "DESIGN.md section 5 C22"),
+})
+
 PENDING_REASON ="check not yet built in this revision of /verif (no technical obstacle; see DESIGN.md section 5)"
 
 def main():
